@@ -88,6 +88,29 @@ fn run(cfgv: &Value, seed: u64, code: &str, file: &str, fs: &FsSpec, plan: &Faul
     }
 }
 
+/// the two halves of the call with their own configurations (the library API takes one for `rewrite_js` and one
+/// for `print_js`; the binding passes the same twice, the repo's own tests do not)
+fn run_split(cfg_rw: &Value, cfg_pr: &Value, seed: u64, code: &str, file: &str, fs: &FsSpec, plan: &FaultPlan) -> Result<(String, String), String> {
+    let c1 = exec::make_config(cfg_rw, seed).map_err(|o| format!("to_config: {:?}", o))?;
+    let c2 = exec::make_config(cfg_pr, seed).map_err(|o| format!("to_config: {:?}", o))?;
+    let reader = SimFileReader::new(fs, plan);
+    let r = catch_unwind(AssertUnwindSafe(|| {
+        vh::rewrite_js(code.to_string(), file, &c1, &reader).map(|res| {
+            let content = vh::print_js(&res.code, &res.source_map, &res.original_source_map, &c2).into_owned();
+            let status = res.transform_status.map(|s| s.status.to_string().to_lowercase()).unwrap_or_default();
+            (status, content)
+        })
+    }));
+    match r {
+        Err(_) => {
+            let (m, l) = exec::take_last_panic().unwrap_or_default();
+            Err(format!("panic at {l}: {m}"))
+        }
+        Ok(Err(e)) => Err(format!("rewrite error: {e}")),
+        Ok(Ok(x)) => Ok(x),
+    }
+}
+
 /// the same call through the repo's real-disk reader (`DefaultFileReader`: `File::open`, the trait's `parent`)
 fn run_real(cfgv: &Value, seed: u64, code: &str, file: &str) -> Result<(String, String), String> {
     let cfg = exec::make_config(cfgv, seed).map_err(|o| format!("to_config: {:?}", o))?;
@@ -939,6 +962,23 @@ impl Engine for C10 {
             }
             st(&mut rep, "probe:fs-history-run", 1);
         }
+        // K8: the library API takes a configuration for each half of the call; whether a map is chained is decided by
+        // the one given to print_js - rewriting with chaining and comments off and printing with chaining on must give
+        // what one configuration with chaining on gives
+        if p.orig_map.is_some() && !p.ref_text.is_empty() {
+            let whole = run(&cfg_for(true, false), p.prng_seed, &with_ref, &p.file, &p.fs, &clean_plan).map(|o| (o.status, o.content));
+            let split = run_split(&cfg_for(false, false), &cfg_for(true, false), p.prng_seed, &with_ref, &p.file, &p.fs, &clean_plan);
+            events += 2;
+            if let (Ok((s1, c1)), Ok((s2, c2))) = (&whole, &split) {
+                if s1 == "modified" {
+                    st(&mut rep, "probe:split-configuration-call", 1);
+                }
+                if s1 != s2 || c1 != c2 {
+                    viol.push(Violation::new("K8", "K8:split-config-differs", format!("[ref={}] rewrite_js with chaining and comments off followed by print_js with chaining on gives another result than both halves with chaining on (status {s2} vs {s1})", p.ref_kind)));
+                }
+            }
+            log.push(format!("split-config: agree={}", whole == split));
+        }
         // K7: the repo's real-disk reader over a scratch directory materialised from the simulated FS, the file
         // reached directly or through symbolic links, against the simulated reader on the same (prefixed) names
         if let (Some(path), Some(_)) = (&p.expected_open, &p.orig_map) {
@@ -1077,7 +1117,7 @@ impl Engine for C10 {
     }
 
     fn rule(&self) -> String {
-        "a case is one (program, file, original map O, reference kind, FS state, benign fault plan, fatal fault plan) executed under the matrix {chain on,off} x {comments on,off} x regimes {clean, benign-only, fatal} (regimes run separately) plus the program without the reference; oracles K1 trailer, K2 composition (independent VLQ codec + greatest-lower-bound lookup) or plain-map fallback, K3 benign=clean bytes, K4 resolved path, K5 text preservation, K6 FS history (the map file goes missing / O / O2 / denied / malformed between successive calls; each call must reflect the current state), K7 real disk (for plain POSIX names with a relative external reference the simulated FS is written to a scratch directory - the file as a plain file, as a symbolic link to a file stored in another folder with the map beside the link, or inside a symbolically linked folder - and the repo's DefaultFileReader must produce the byte-identical result to the simulated reader on the same names). distinct = hash of (O shape, reference kind, look-alike flag, fault plan shape); every case is non-trivial (at least 6 real rewrites, faults injected whenever the reference is external)".into()
+        "a case is one (program, file, original map O, reference kind, FS state, benign fault plan, fatal fault plan) executed under the matrix {chain on,off} x {comments on,off} x regimes {clean, benign-only, fatal} (regimes run separately) plus the program without the reference; oracles K1 trailer, K2 composition (independent VLQ codec + greatest-lower-bound lookup) or plain-map fallback, K3 benign=clean bytes, K4 resolved path, K5 text preservation, K6 FS history (the map file goes missing / O / O2 / denied / malformed between successive calls; each call must reflect the current state), K7 real disk (for plain POSIX names with a relative external reference the simulated FS is written to a scratch directory - the file as a plain file, as a symbolic link to a file stored in another folder with the map beside the link, or inside a symbolically linked folder - and the repo's DefaultFileReader must produce the byte-identical result to the simulated reader on the same names), K8 split configuration (rewrite_js with chaining and comments off, print_js with chaining on = both with chaining on). distinct = hash of (O shape, reference kind, look-alike flag, fault plan shape); every case is non-trivial (at least 6 real rewrites, faults injected whenever the reference is external)".into()
     }
 
     fn components(&self) -> Value {
@@ -1110,6 +1150,7 @@ impl Engine for C10 {
             "probe:eintr-during-map-read",
             "probe:fs-history-run",
             "probe:real-disk-agrees-with-simulated-reader",
+            "probe:split-configuration-call",
             "probe:usable-map-without-parent-folder",
             "probe:logger-switched-on",
         ]
